@@ -75,6 +75,7 @@ structure Node where
   name : String
   ts : Int
   graph : String
+  state : TState := .other
   deriving Repr, Inhabited
 
 structure Inst where
@@ -251,7 +252,16 @@ def Inst.wfChains (I : Inst) : Bool :=
   (List.range I.nT).all (fun a => (List.range I.nT).all (fun b =>
     !I.dependent a b || (I.descIn I.nT a).contains b || (I.descIn I.nT b).contains a))
 
-def Inst.wf (I : Inst) : Bool := I.wfRunning && I.wfParents && I.wfOffered && I.wfChains
+/-- Every task of the workload that is RUNNING or SCHEDULED has variables in this call: RUNNING
+and (non-retracting mode) SCHEDULED tasks through `previously_placed_tasks`, and in retracting
+mode every SCHEDULED task because `get_schedulable_tasks` re-offers it.  This is what makes
+"a predecessor that is already running or scheduled" a predecessor *with variables*, to which
+the C11 theorems apply, and what makes the capacity theorem speak about all planned work. -/
+def Inst.wfPlaced (I : Inst) : Bool :=
+  I.nodes.all (fun n => !(n.state == .scheduled || n.state == .running) || I.hasVarName n.uniq)
+
+def Inst.wf (I : Inst) : Bool :=
+  I.wfRunning && I.wfParents && I.wfOffered && I.wfChains && I.wfPlaced
 
 /-! ### Names (identical to the f-strings of the code) -/
 
